@@ -2,6 +2,8 @@ pub mod c01;
 pub mod c02;
 pub mod c03;
 pub mod c04;
+pub mod c10;
+pub mod c13;
 pub mod c14;
 pub mod c15;
 pub mod c16;
@@ -17,6 +19,8 @@ pub fn run(ctx: &Ctx) -> i32 {
         "C02" => c02::run(ctx),
         "C03" => c03::run(ctx),
         "C04" => c04::run(ctx),
+        "C10" => c10::run(ctx),
+        "C13" => c13::run(ctx),
         "C14" => c14::run(ctx),
         "C15" => c15::run(ctx),
         "C16" => c16::run(ctx),
@@ -37,6 +41,8 @@ pub fn replay(ctx: &Ctx, file: &Path) -> i32 {
         "C03" => ctx.replay_file(file, &|c: &str, case: &serde_json::Value| c03::replay_any(c, case, &ctx.known)),
         "C04" => ctx.replay_file(file, &|c: &str, case: &serde_json::Value| c04::replay_any(c, case, &ctx.known)),
         "C18" => ctx.replay_file(file, &|c: &str, case: &serde_json::Value| c18::replay_any(c, case, &ctx.known)),
+        "C10" => ctx.replay_file(file, &|c: &str, case: &serde_json::Value| c10::replay_any(c, case, &ctx.known)),
+        "C13" => ctx.replay_file(file, &|c: &str, case: &serde_json::Value| c13::replay_any(c, case, &ctx.known)),
         "C14" => ctx.replay_file(file, &|c: &str, case: &serde_json::Value| c14::replay_any(c, case, &ctx.known)),
         "C15" => ctx.replay_file(file, &|c: &str, case: &serde_json::Value| c15::replay_any(c, case, &ctx.known)),
         "C16" => ctx.replay_file(file, &|c: &str, case: &serde_json::Value| c16::replay_any(c, case, &ctx.known)),
